@@ -4,5 +4,6 @@
 EXTENDS JsonText, Json
 MaxDepthDummy == 1
 ASSUME PrintT(<<"T", ToJson([classes |-> [c \in Cls |-> {b \in 0..255 : Class(b) = c}],
-                             canon   |-> [c \in Cls |-> Canon(c)]])>>)
+                             canon   |-> [c \in Cls |-> Canon(c)],
+                             order   |-> [c \in Cls |-> Idx(c)]])>>)
 =============================================================================
